@@ -293,7 +293,7 @@ PROPS['C14'] = dict(
     level_text='Mixed. Proved (unbounded): for every N >= 1, every extension factor, every k in [-2N*ext, 2^61] and every limb, lookup_table_rotate turns the extended polynomial P (coefficient m = coefficient m/ext of polynomial m%ext) into X^k * P in Z[X]/(X^(N*ext)+1), negacyclic sign included; no panic, no overflow, scratch of exactly vec_znx_rotate_assign_tmp_bytes suffices. Bounded (N = 4, extension factor 1, table lengths 2 and 4, entries symbolic): after lookup_table_set and a rotation by any index t in [0, 2N) the constant coefficient equals +-f[floor((t+drift)/step)]*scale with the negacyclic sign.',
     level_note='lookup_table_set for extension factor > 1 is only covered through the rotation it ends with (CBMC does not finish the set path for ext >= 2); blind rotation under encryption (external products) and key distributions are undecided; mod_switch_2n is covered by bounded harnesses (10 radices on both sides of log2(2N*ext), both directions).',
     explanation=BOUNDED_EXPL,
-    units=[V('bdd_blind_rotation'), V('bdd_blind_rotation_block_val'), V('lut', lemmas=['lemma_inter_rot', 'lemma_mod_scale', 'lemma_rot_no_min']),
+    units=[V('bdd_blind_rotation'), V('bdd_blind_rotation_block_val'), V('bdd_blind_rotation_ext_val', lemmas=['lemma_div_lt']), V('lut', lemmas=['lemma_inter_rot', 'lemma_mod_scale', 'lemma_rot_no_min']),
            K('poulpy-bin-fhe', 'blind_rotation::lut::verif_kani', ['c14_lut_clear__n4_ext1_f4', 'c14_lut_clear__n4_ext1_f2'], cls='bounded', timeout=1500,
              bound='N=4, ext=1, table length 4 / 2, base2k=4, k=3', functions=['LookupTableFactory::lookup_table_set', 'LookupTableFactory::lookup_table_rotate']),
            K('poulpy-bin-fhe', 'blind_rotation::lut::verif_kani::c14_mod_switch', ['c14_mod_switch__b%d_%s' % (b, d) for b in (2, 3, 4, 5, 6, 7, 8, 10, 13, 19) for d in ('right', 'left')], cls='bounded', timeout=900,
